@@ -199,6 +199,10 @@ func (s *Stream) reset() {
 func (s *Stream) readBuf() []byte {
 	if s.filledBuffer {
 		s.bufSize *= 2
+		for s.bufSize <= int64(len(s.buf)) {
+			// replacing ill-formed bytes by U+FFFD in place has made the buffer longer than its nominal size
+			s.bufSize *= 2
+		}
 		remainBuf := s.buf
 		s.buf = make([]byte, s.bufSize)
 		copy(s.buf, remainBuf)
